@@ -27,14 +27,14 @@ func sprintfOperands(v ssa.Value) (string, []ssa.Value, bool) {
 		return "%d", []ssa.Value{call.Call.Args[0]}, true
 	case "strconv.Itoa":
 		return "%d", []ssa.Value{call.Call.Args[0]}, true
-	case "fmt.Sprintf", "fmt.Sprint":
+	case "fmt.Sprintf", "fmt.Sprint", "fmt.Errorf":
 	default:
 		return "", nil, false
 	}
 	args := call.Call.Args
 	format := ""
 	var va ssa.Value
-	if calleeName(call) == "fmt.Sprintf" {
+	if calleeName(call) == "fmt.Sprintf" || calleeName(call) == "fmt.Errorf" {
 		format, _ = constString(args[0])
 		va = args[1]
 	} else {
